@@ -314,7 +314,21 @@ func oddValues() {
 	}
 	tc := smf.TimeCode{FramesPerSecond: 25, SubFrames: 40}
 	mt := smf.MetricTicks(96)
-	for name, s := range map[string]smf.SMF{"zero-value-no-time-format": mk(nil), "pointer-to-timecode": mk(&tc), "pointer-to-metric-ticks": mk(&mt), "metric-ticks-0": mk(smf.MetricTicks(0))} {
+	type odd struct {
+		name string
+		s    smf.SMF
+	}
+	odds := []odd{{"zero-value-no-time-format", mk(nil)}, {"pointer-to-timecode", mk(&tc)}, {"pointer-to-metric-ticks", mk(&mt)}, {"metric-ticks-0", mk(smf.MetricTicks(0))}}
+	// resolutions the header cannot hold (the type takes 16 bits, the format
+	// 15): refused, or written as some valid file - never an invalid header
+	for r := 32768; r <= 65535; r++ {
+		odds = append(odds, odd{fmt.Sprintf("metric-ticks-%d", r), mk(smf.MetricTicks(r))})
+	}
+	for _, o := range odds {
+		name, s := o.name, o.s
+		if len(name) > 15 && name[:13] == "metric-ticks-" {
+			name = "metric-ticks-above-32767"
+		}
 		ctx.Eval()
 		ctx.Add("odd_values", 1)
 		var w countWriter
@@ -324,14 +338,14 @@ func oddValues() {
 		out := w.buf.Bytes()
 		switch {
 		case c.Panicked:
-			ctx.Violation(c.Sig+":odd-value:"+name, map[string]interface{}{"kind": "odd-value", "value": name, "what": "WriteTo panicked: " + c.Value})
+			ctx.Violation(c.Sig+":odd-value:"+name, map[string]interface{}{"kind": "odd-value", "value": o.name, "what": "WriteTo panicked: " + c.Value})
 		case err != nil:
 			// refused: fine
 		case n != int64(len(out)):
-			ctx.Violation("size:odd-value:"+name, map[string]interface{}{"kind": "odd-value", "value": name, "what": fmt.Sprintf("reported size %d, emitted %d bytes", n, len(out))})
+			ctx.Violation("size:odd-value:"+name, map[string]interface{}{"kind": "odd-value", "value": o.name, "what": fmt.Sprintf("reported size %d, emitted %d bytes", n, len(out))})
 		default:
 			if _, perr := refsmf.Parse(out, refsmf.Strict); perr != nil {
-				ctx.Violation("strict:rejected:odd-value:"+name, map[string]interface{}{"kind": "odd-value", "value": name,
+				ctx.Violation("strict:rejected:odd-value:"+name, map[string]interface{}{"kind": "odd-value", "value": o.name,
 					"what": "WriteTo reported success but the strict parser rejects the output: " + perr.Error() + " bytes=" + engine.Hex(clip(out))})
 			}
 		}
